@@ -39,7 +39,7 @@ CFG = {
                  "server and library hooks, in-process re-read oracle, CLI end-to-end loop)",
     "variants": [{"features": [], "env": {"SV_CLI": _CLI}}],
     "needs_cli": True,
-    "lean_modules": [],
+    "lean_modules": ["SuccinctlyVerif.Props.C15"],
     "lean_files": ["SuccinctlyVerif/Props/C15.lean", "SuccinctlyVerif/Proof/YamlEmit.lean",
                    "SuccinctlyVerif/Model/YamlEmit.lean", "SuccinctlyVerif/Spec/YamlScalar.lean"],
     "generated": ["C15"],
